@@ -17,25 +17,51 @@ META = dict(
          "alone; kept/discarded = the selection and exactly its complement; mates kept together at the same rank). On every run the BUILT obigrep/obiannotate/obidistribute/obimultiplex "
          "are driven on generated FASTA/FASTQ inputs with each option alone, every pair, random larger subsets, repeated options (last wins / accumulate), options in shuffled order, "
          "values at the guards (0, 1, 2, 2e9-1, 2e9, 2e9+1), string-typed counts, the six paired modes, worker x batch grids and repeated tiny runs; every output file is compared with a "
-         "Python reference interpreter of the options (direct oracle) and with the Coq model evaluated by vm_compute on the same option record and records (correspondence).",
+         "Python reference interpreter of the options (direct oracle) and with the Coq model evaluated by vm_compute on the same option record and records (correspondence). "
+         "Round 3 (coverage driven): --cut with every sign of the two bounds (theorem C16_cut_exact_signed, after the fix of the negative start); edits that fail on a record "
+         "(-S / --set-identifier reading a missing attribute: that record is discarded, the others edited; with selection the unselected pass through); the functions of the "
+         "expression language (len, contains, ismap, printf, gsub, subspc, int, numeric, bool, ifelse, gc, gcskew, composition, replace) in -p and -S; -r KEY (clade named by the "
+         "record's own attribute); boolean / float attribute values; records already carrying the tools' own annotations; the ways records enter and leave the commands (stdin, "
+         "several files with and without --no-order, gzip input, -o, -Z, --force-one-cpu) judged by the same oracle; obidistribute --fasta-output / --fastq-output / -O / "
+         "--output-json-header / -Z / --append over several runs (theorem C16_distribute_append); obimultiplex without -u and with --keep-errors (theorem "
+         "C16_mux_without_unidentified) and on reads that carry the verdict of an earlier run; arguments that cannot be understood (bad regular expression / expression / "
+         "paired mode / --cut, missing identifier or taxonomy file, unwritable discarded file, directory name taken by a file) must stop the command; goroutine stress of the "
+         "annotation workers (8 workers, batches of 1-3 records, long input; and CLIAnnotationPipeline run IN PROCESS by the harness on 6 000-20 000 synthetic records with "
+         "4-16 workers, every output record compared with the reference interpreter) and DivideOn with unequal numbers of full batches on the two sides.",
     note="Trusted/abstract: Go regexp, gval, the apat matcher (IsMatching / BestMatch / ReverseComplement), the taxonomy edits (SetTaxonAtRank, SetPath, SetTaxonomicRank, "
          "SetScientificName, AddLCAWorker) and the Aho-Corasick counter are Section variables of the model; the correspondence instantiates them with a literal/character-class matcher, "
          "a 16-constructor expression subset, an IUPAC Hamming-window / Sellers matcher, a leftmost-best Hamming BestMatch, the 11-node taxonomy (LCA at threshold 1.0) and an "
          "overlapping-occurrence counter, each also checked against the real code by the Python oracle. --pattern with --allows-indels: location chosen by the matcher is not predicted "
-         "(presence, strand preference and slot consistency are). readers/writers/file naming (C01-C04); obimultiplex -u is checked by the oracle only. Guards stated in the theorems: "
+         "(presence, strand preference and slot consistency are). readers/writers/file naming (C01-C04); obimultiplex: the barcode worker is not modelled (C12); the reads as it leaves them (observed on the output records, projected on obimultiplex_error) are routed by the model's DivideOn / FilterOn loops and compared with the two files in file order (round 3). Guards stated in the theorems: "
          "records of length >= 1, 1 <= count, both below the 2e9 sentinels; C16_annotate_untouched / _seq_id_untouched are stated for option sets without external edits (no_ext) and, for "
          "the sequence/id, without rename/-S aimed at the fields id/sequence; C16_annotate_untouched_ext covers the option sets WITH external edits under explicit frame hypotheses "
          "(taxonomy edits and the Aho-Corasick counter write only slots of ext_key and keep id/sequence; the four --pattern slots are computed in the model); rename/-S maps with independent keys (Go map order). impl_worker is written as the fold of ChainWorkers over "
          "the 15 optional steps (a step not requested chains the nil worker, which ChainWorkers ignores). Quality strings are not in the model (rename from `qualities` on FASTQ: oracle only). "
          "Observations outside the statement (evidence key observations): --add-lca-in panics on a record without taxid and creates the merged_taxid summary slot; the scientific-name "
-         "slot is spelt `scienctific_name`; a string-typed count reads as 1.")
+         "slot is spelt `scienctific_name`; a string-typed count reads as 1; the help of -D / -I says case insensitive, the code (and OBITools 2) is case sensitive; "
+         "seq_length is written before --cut shortens the sequence (the chain order is the code's); --cut=0:N, --cut=N:0 and --aho-corasick MISSING_FILE are accepted and ignored. "
+         "Round 3, expression functions gsub / replace / gc / gcskew / composition / numeric / bool and the file-format variants of obidistribute are judged by the oracle only "
+         "(no floats / gzip in the model). Known finding gcskew-nan (NaN attribute -> the record is written without any attribute). "
+         "Not exercised (anchored code no process of the check executes), because no command of this property can reach it: SequencePredicate.PredicateOnPaired, "
+         "SequencePredicate.Xor, NilSeqWorker (no caller in pkg/ or cmd/); SequencePredicate.Or with a nil side (IsSubCladeOf never returns nil); the breakOnError=true branches of "
+         "SeqToSliceWorker / SeqToSliceConditionalWorker / CutSequenceWorker and their output-growth branches (every obiannotate worker returns at most one record, breakOnError is "
+         "false on every call path); ChainWorkers with a nil `next` or a nil sequence; the from=0,to=0 identity of CutSequenceWorker (CLIHasCut wants both bounds non-zero); the "
+         "apat error paths of MatchPatternWorker (pattern already compiled) and its dead `start < 0` clamp; the getters CLIMin/MaxSequenceLength, CLIMin/MaxSequenceCount, "
+         "CLIRequiredRanks (no caller); the statement after log.Fatalf in CLIPairedReadMode; IBioSequence.Concat / Pool / FilterEmpty / Consume / Count / FilterAnd / Load / "
+         "CompleteFileIterator / Lock-Unlock / IsNil / BatchSize / SetBatchSize, BioSequenceBatch.UnPair, BioSequence(Slice).UnPair, AnnotationClassifier, "
+         "PredicateClassifier, SequenceClassifier and the Reset / Clone closures of every classifier (used by obiuniq / obiclean / obichunk / the readers: properties C03, C05, "
+         "C06, not by obigrep / obiannotate / obidistribute / obimultiplex; the lead `AnnotationClassifier reset keeps maxcode` concerns obichunk.ISequenceSubChunk only); "
+         "IDistribute.Outputs / WriterDispatcher failure branches (unknown code, undecodable key, writer error) and the open-file failure of the paired discarded file; "
+         "skipEmptyBatches on a paired stream. ToBeKeptAttributesWorker ignores its argument and reads the global _keepOnly: same list on every call path, not observable.")
 TRUSTED = ["Go regexp, gval evaluation, obiapat matcher (IsMatching, BestMatch, ReverseComplement), obitax edits (SetTaxonAtRank, SetPath, SetTaxonomicRank, SetScientificName, AddLCAWorker) and the Aho-Corasick counter are Section variables (re_match, eval_bool, eval_val, approx_match, apat_rc, best_match, at_rank, set_path, set_trank, set_sciname, set_lca, aho_edit) of the model",
            "concrete instances used by the correspondence: literal/'.'/class/^/$ regexps, 16-constructor expressions, IUPAC Hamming-window and Sellers matchers, leftmost-best BestMatch without indels, 11-node taxonomy with LCA at threshold 1.0",
            "the batch-level model takes the input batches in order (SortBatches) and one goroutine per Distribute/DivideOn/Rebatch loop; FilterOn workers are modelled as a per-batch filter that keeps the batch order number"]
 
 SENT = 2000000000
 MAX_VIOL = 8
-KNOWN_TEXT = {}     # round 2: nil-predicate-shortcut and fastq-written-as-fasta are repaired (status fixed): the oracle keys below only label the violation
+KNOWN_TEXT = {      # round 2: nil-predicate-shortcut and fastq-written-as-fasta are repaired (status fixed): those oracle keys only label the violation
+    "gcskew-nan": "obiannotate -S skew=gcskew(sequence) on a sequence without g and c: the value is NaN, the JSON title-line writer cannot encode it "
+                  "and the record is written without ANY of its attributes (witness: {k:abc, n:3} ttaatt)"}
 CMDS = ["obigrep", "obiannotate", "obidistribute", "obimultiplex"]
 MODES = ["forward", "reverse", "and", "or", "andnot", "xor"]
 
@@ -73,6 +99,7 @@ def rec_taxid(r):
 WORDS = ["abc", "xbz", "abd", "AbC", "a1", "b22", "foo", "foobar", "bar", "ab", "zz9"]
 DEFS = ["", "", "def one", "second", "foo bar", "a sample of soil", "Abc", "x"]
 SKEYS = ["k", "tag", "sample"]
+XKEYS = ["flag", "score"]         # boolean / floating point attribute values (fmt.Sprint: true, false, 1.5)
 IKEYS = ["n", "x"]
 
 
@@ -85,6 +112,7 @@ def gen_dataset(rng, n, fastq=False, prefix="s", with_count=True, all_taxid=Fals
         if rng.random() < 0.15:
             seq = rng.choice("acgt") * l
         attrs = {}
+        rid_suffix = ""
         if with_count and rng.random() < 0.6:
             attrs["count"] = rng.choice([1, 1, 2, 3, 5, 6, 7, 10, 100])
             if rng.random() < 0.12:
@@ -97,12 +125,26 @@ def gen_dataset(rng, n, fastq=False, prefix="s", with_count=True, all_taxid=Fals
                 attrs[k] = rng.choice([0, 1, 3, 7, 12, 22, 100])
         if all_taxid or rng.random() < 0.6:
             attrs["taxid"] = rng.choice([t for t, _, _ in TAX_NODES])
+        if all_taxid and rng.random() < 0.6:
+            t = rng.choice([t for t, _, _ in TAX_NODES])
+            attrs["parent"] = rng.choice([t, t, str(t), "zz", 999])      # the clade of -r parent: int, decimal string, junk, unknown taxid
+        if rng.random() < 0.25:
+            attrs["flag"] = rng.choice([True, False])
+        if rng.random() < 0.25:
+            attrs["score"] = rng.choice([0.5, 1.5, 2.25, 10.75])
+        if rng.random() < 0.15:
+            # the record went through the tools before: it already carries their annotations
+            attrs.update(rng.choice([{"seq_length": 7}, {"pattern": "acgt", "pattern_match": "acgt", "pattern_error": 0, "pattern_location": "1..4"},
+                                     {"aho_corasick": 3, "aho_corasick_Fwd": 1, "aho_corasick_Rev": 2}, {"family_taxid": 20, "family_name": "taxon20"},
+                                     {"taxonomic_rank": "genus", "scienctific_name": "old name"}]))
+            if rng.random() < 0.5:
+                rid_suffix = "_sub[2..5]"
         if all_taxid and rng.random() < 0.3:
             attrs["merged_taxid"] = {str(t): rng.choice([1, 1, 2, 5]) for t in rng.sample([t for t, _, _ in TAX_NODES], rng.choice([1, 2, 3]))}
         d = rng.choice(DEFS)
         if d:
             attrs["definition"] = d
-        rid = "%s%s_%03d" % (prefix, rng.choice(["A", "B", "ab", "x1"]), i)
+        rid = "%s%s_%03d%s" % (prefix, rng.choice(["A", "B", "ab", "x1"]), i, rid_suffix)
         r = dict(id=rid, attrs=attrs, seq=seq)
         if fastq:
             r["qual"] = "".join(chr(33 + rng.randrange(2, 40)) for _ in range(l))
@@ -129,13 +171,14 @@ def fmt_input(recs):
 def canon_val(v):
     if isinstance(v, bool):
         return v
-    if isinstance(v, float) and v == int(v):
+    if isinstance(v, float) and v == v and abs(v) != float("inf") and v == int(v):
         return int(v)
     return v
 
 
-def parse_output(text):
-    """FASTA/FASTQ with JSON headers -> list of records (id, attrs, seq[, qual])."""
+def parse_output(text, obi=False):
+    """FASTA/FASTQ with JSON headers -> list of records (id, attrs, seq[, qual]).
+    obi=True: OBI headers (`key=value; key=value;  definition`), flat values only, every value kept as the string written."""
     recs = []
     lines = text.split("\n")
     i = 0
@@ -147,6 +190,16 @@ def parse_output(text):
         rid = parts[0]
         attrs = {}
         rest = parts[1].strip() if len(parts) > 1 else ""
+        if obi:
+            while True:
+                m = re.match(r"([A-Za-z_][A-Za-z0-9_]*)=([^;]*);\s*", rest)
+                if not m:
+                    break
+                attrs[m.group(1)] = m.group(2)
+                rest = rest[m.end():]
+            if rest.strip():
+                attrs["definition"] = rest.strip()
+            return rid, attrs
         if rest.startswith("{"):
             obj, end = dec.raw_decode(rest)
             attrs = {k: canon_val(v) for k, v in obj.items()}
@@ -237,6 +290,19 @@ def pexpr_src(e):
         return "(%s) || (%s)" % (pexpr_src(e[1]), pexpr_src(e[2]))
     if k == "not":
         return "!(%s)" % pexpr_src(e[1])
+    # functions of the embedded language (pkg/obiseq/language.go)
+    if k == "nattrge":
+        return "len(annotations) >= %d" % e[1]
+    if k == "ismap":
+        return 'contains(annotations,"%s") && ismap(annotations.%s)' % (e[1], e[1])
+    if k == "attrgt":
+        return 'contains(annotations,"%s") && annotations.%s > %d' % (e[1], e[1], e[2])
+    if k == "iflen":
+        return "ifelse(sequence.Len() > %d, true, false)" % e[1]
+    if k == "gcge":
+        return "gc(sequence) >= %s" % e[1]
+    if k == "notin":
+        return '!contains(sequence.Id(), "%s")' % e[1]
     raise ValueError(e)
 
 
@@ -268,11 +334,45 @@ def pexpr_eval(e, r):
         return pexpr_eval(e[1], r) or pexpr_eval(e[2], r)
     if k == "not":
         return not pexpr_eval(e[1], r)
+    if k == "nattrge":
+        return len(r["attrs"]) >= e[1]
+    if k == "ismap":
+        return isinstance(r["attrs"].get(e[1]), dict)
+    if k == "attrgt":
+        v = r["attrs"].get(e[1])
+        return isinstance(v, int) and not isinstance(v, bool) and v > e[2]
+    if k == "iflen":
+        return len(r["seq"]) > e[1]
+    if k == "gcge":
+        return gc_ref(r["seq"]) >= float(e[1])
+    if k == "notin":
+        return True             # contains() of something that is not a map is false
     raise ValueError(e)
 
 
+def gc_ref(seq):
+    return (seq.count("g") + seq.count("c")) / len(seq)
+
+
+def pexpr_float(e):
+    """does the expression use floating point (gc): judged by the oracle only, the Coq model has no floats"""
+    return e[0] == "gcge" or any(isinstance(x, tuple) and pexpr_float(x) for x in e[1:])
+
+
 def gen_pexpr(rng, ds, depth=1):
-    k = rng.choice(["lenge", "lenle", "counteq", "ideq", "has", "true", "false"] + (["and", "or", "not"] * 2 if depth else []))
+    k = rng.choice(["lenge", "lenle", "counteq", "ideq", "has", "true", "false", "nattrge", "ismap", "attrgt", "iflen", "gcge", "notin"] + (["and", "or", "not"] * 3 if depth else []))
+    if k == "notin":
+        return (k, rng.choice(["s", "A", "_"]))
+    if k == "nattrge":
+        return (k, len(rng.choice(ds)["attrs"]) + rng.choice([0, 0, 1]))
+    if k == "ismap":
+        return (k, rng.choice(["merged_taxid", "k", "n", "nokey"]))
+    if k == "attrgt":
+        return (k, rng.choice(IKEYS), rng.choice([0, 1, 3, 7, 12]))
+    if k == "iflen":
+        return (k, len(rng.choice(ds)["seq"]) + rng.choice([-1, 0]))
+    if k == "gcge":
+        return (k, rng.choice(["0.25", "0.5", "0.75", "1"]))
     if k in ("lenge", "lenle"):
         return (k, len(rng.choice(ds)["seq"]) + rng.choice([-1, 0, 1]))
     if k == "counteq":
@@ -302,7 +402,35 @@ def vexpr_src(e):
         return "sequence.Id()"
     if k == "idsuffix":
         return 'sequence.Id()+"%s"' % e[1]
+    if k == "attr":
+        return "annotations.%s" % e[1]
+    if k == "iflen":
+        return 'ifelse(sequence.Len() > %d, "%s", "%s")' % (e[1], e[2], e[3])
+    if k == "printf":
+        return 'printf("%s_%d", sequence.Id(), sequence.Len())'
+    if k == "halflen":
+        return "int(sequence.Len()/2)"
+    if k == "gsubid":
+        return 'gsub(sequence.Id(), "%s", "%s")' % (e[1], e[2])
+    if k == "replseq":
+        return 'replace(sequence.String(), "%s", "%s")' % (e[1], e[2])
+    if k == "subspc":
+        return 'subspc("%s")' % e[1]
+    if k == "gc":
+        return "gc(sequence)"
+    if k == "gcskew":
+        return "gcskew(sequence)"
+    if k == "comp":
+        return "composition(sequence)"
+    if k == "numlen":
+        return "numeric(sequence.Len())+0.5"
+    if k == "boolcnt":
+        return "bool(sequence.Count()-1)"
     raise ValueError(e)
+
+
+class EvalError(Exception):
+    """the expression cannot be evaluated on the record (gval error): the edit fails, the record is discarded with a warning"""
 
 
 def vexpr_eval(e, r):
@@ -317,11 +445,52 @@ def vexpr_eval(e, r):
         return r["id"]
     if k == "idsuffix":
         return r["id"] + e[1]
+    if k == "attr":
+        if e[1] not in r["attrs"]:
+            raise EvalError("unknown parameter annotations.%s" % e[1])
+        return r["attrs"][e[1]]
+    if k == "iflen":
+        return e[2] if len(r["seq"]) > e[1] else e[3]
+    if k == "printf":
+        return "%s_%d" % (r["id"], len(r["seq"]))
+    if k == "halflen":
+        return len(r["seq"]) // 2
+    if k == "gsubid":
+        return r["id"].replace(e[1], e[2])
+    if k == "replseq":
+        return r["seq"].replace(e[1], e[2])
+    if k == "subspc":
+        return e[1].replace(" ", "_")
+    if k == "gc":
+        return canon_val(gc_ref(r["seq"]))
+    if k == "gcskew":
+        g, c = r["seq"].count("g"), r["seq"].count("c")
+        return canon_val((g - c) / (g + c)) if g + c else float("nan")
+    if k == "numlen":
+        return len(r["seq"]) + 0.5
+    if k == "boolcnt":
+        return rec_count(r) != 1
+    if k == "comp":
+        return dict([(x, r["seq"].count(x)) for x in "acgt"] + [("o", sum(1 for x in r["seq"] if x not in "acgt"))])
     raise ValueError(e)
 
 
+VEXPR_ORACLE_ONLY = ("gsubid", "replseq", "gc", "gcskew", "comp", "numlen", "boolcnt")     # no counterpart in the Coq expression instance
+
+
 def gen_vexpr(rng, strings_only=False):
-    k = rng.choice(["str", "id", "idsuffix"] if strings_only else ["int", "str", "lenplus", "counttimes", "id", "idsuffix"])
+    k = rng.choice(["str", "id", "idsuffix", "printf", "gsubid", "attr"] if strings_only else
+                   ["int", "str", "lenplus", "counttimes", "id", "idsuffix", "attr", "attr", "iflen", "printf", "halflen", "gsubid", "replseq", "subspc", "gc", "comp", "numlen", "boolcnt"])
+    if k == "attr":
+        return (k, rng.choice(SKEYS if strings_only else SKEYS + IKEYS))     # fails on the records that lack the attribute
+    if k == "iflen":
+        return (k, rng.choice([1, 5, 9, 10, 20]), rng.choice(WORDS), rng.choice(WORDS))
+    if k == "gsubid":
+        return (k, rng.choice(["_", "A", "s", "0"]), rng.choice(["-", "", "xx"]))
+    if k == "replseq":
+        return (k, rng.choice(["a", "ac", "t"]), rng.choice(["x", "", "nn"]))
+    if k == "subspc":
+        return (k, rng.choice(["a b c", "nospace", " x "]))
     if k == "int":
         return (k, rng.choice([0, 1, 2, 42, 1000]))
     if k == "str":
@@ -436,7 +605,7 @@ def crit_all(o, r):
     for rk in o.get("ranks", []):
         if not any(k == rk for _, k in path):
             return False
-    if o.get("restrict") and not any(t in [x for x, _ in path] for t in o["restrict"]):
+    if o.get("restrict") and not any((slot_taxid(r, t) if isinstance(t, str) else t) in [x for x, _ in path] for t in o["restrict"]):
         return False
     if any(t in [x for x, _ in path] for t in o.get("ignore", [])):
         return False
@@ -444,6 +613,17 @@ def crit_all(o, r):
         if not approx_ref(p, r["seq"], o.get("pat_err", 0), bool(o.get("pat_indel")), not o.get("pat_fwd")):
             return False
     return True
+
+
+def slot_taxid(r, slot):
+    """-r SLOT (not a number): the clade is the taxon whose taxid the record carries in its attribute SLOT
+    (Taxonomy.IsSubCladeOfSlot: fmt.Sprint of the value, read as a decimal taxid); None when there is none"""
+    if slot not in r["attrs"]:
+        return None
+    v = sprint(r["attrs"][slot])
+    if not re.fullmatch(r"[0-9]+", v) or int(v) not in TAX_PARENT:
+        return None
+    return int(v)
 
 
 def effective(o):
@@ -471,10 +651,11 @@ def spec_keep(o, r, mate=None):
 
 
 def cut_ref(seq, qual, frm, to):
-    """--cut from:to on one record (1-based inclusive from, `to` clamped to the length, negative `to` counted from the end).
+    """--cut from:to on one record (1-based inclusive from, `to` clamped to the length, negative bounds counted from the end:
+    -1 = the last base, a negative `from` beyond the first base is clamped to it).
     Returns (f, t) 0-based half-open or None when the record cannot be cut (discarded with a warning)."""
     L = len(seq)
-    f = frm - 1 if frm > 0 else (L + frm + 1 if frm < 0 else 0)
+    f = frm - 1 if frm > 0 else (L + frm if frm < 0 else 0)          # 0-based; -1 = the last base, as for `to`
     t = to if to > 0 else (L + to + 1 if to < 0 else 0)
     if f < 0:
         f = 0
@@ -528,7 +709,10 @@ def spec_annot(o, r, sel=None):
     if o.get("clear"):
         attrs.clear()
     if o.get("setid") is not None:
-        cur["id"] = sprint(vexpr_eval(o["setid"], cur))
+        try:
+            cur["id"] = sprint(vexpr_eval(o["setid"], cur))
+        except EvalError:
+            return []           # the edit cannot be computed on this record: discarded with a warning (as --cut does)
 
     def get_attr(k):            # BioSequence.GetAttribute
         if k == "id":
@@ -580,8 +764,11 @@ def spec_annot(o, r, sel=None):
         attrs[st], attrs[sn], attrs[se] = l, "taxon%d" % l, 0
     if o.get("length"):
         attrs["seq_length"] = len(cur["seq"])
-    for k, e in o.get("settag", {}).items():
-        set_attr(k, vexpr_eval(e, cur))
+    try:
+        for k, e in o.get("settag", {}).items():
+            set_attr(k, vexpr_eval(e, cur))
+    except EvalError:
+        return []
     if o.get("aho") is not None:
         pats = [x.lower() for x in o["aho"] if len(x) > 0]
         nf, nr = aho_count(pats, cur["seq"]), aho_count(pats, revcomp(cur["seq"]))
@@ -622,12 +809,14 @@ def pattern_indel_ok(o, exp, got, untouched=()):
 
     def strip(r):
         return dict(r, attrs={k: v for k, v in r["attrs"].items() if k not in keys})
-    if sorted(rec_key(strip(r)) for r in got) != sorted(rec_key(r) for r in exp):
+    if sorted(rec_key(strip(r)) for r in got) != sorted(rec_key(strip(r)) for r in exp):
         return "records differ apart from the pattern slots"
     p, e = o["pattern"], o.get("pat_err", 0)
     for r in got:
         if rec_key(r) in untouched:
             continue            # a record that was not selected: written unchanged
+        if slot in r["attrs"] and r["attrs"][slot] != p:
+            continue            # slots left by an earlier run with another pattern (no occurrence now): not rewritten
         has = [k in r["attrs"] for k in keys]
         fwd = sellers(p, r["seq"], e)
         rev = (not o.get("pat_fwd")) and sellers(pat_rc(p), r["seq"], e)
@@ -749,10 +938,14 @@ def annot_groups(o, work):
         g.append(["--delete-tag", k])
     for k in o.get("keep", []):
         g.append(["-k", k])
+    for new, old in o.get("rename_over", []):       # earlier occurrences of -R NEW=... / -S KEY=...: the map keeps the last one
+        g.append(["-R", "%s=%s" % (new, old)])
     for new, old in o.get("rename", {}).items():
         g.append(["-R", "%s=%s" % (new, old)])
     if o.get("length"):
         g.append(["--length"])
+    for k, e in o.get("settag_over", []):
+        g.append(["-S", "%s=%s" % (k, vexpr_src(e))])
     for k, e in o.get("settag", {}).items():
         g.append(["-S", "%s=%s" % (k, vexpr_src(e))])
     if o.get("cut") is not None:
@@ -795,6 +988,21 @@ def annot_argv(o, work, sel=None):
     return order_groups(g, o.get("shuffle"))
 
 
+def split_gzip(raw):
+    """a file appended to by several runs is a sequence of gzip members: zlib reads them one after the other"""
+    import zlib
+    out = []
+    while raw:
+        d = zlib.decompressobj(31)
+        d.decompress(raw)
+        used = len(raw) - len(d.unused_data)
+        out.append(raw[:used])
+        raw = d.unused_data
+        if used == 0:
+            break
+    return out
+
+
 class Runner:
     def __init__(self, ctx, bindir):
         self.ctx, self.bin = ctx, bindir
@@ -810,6 +1018,19 @@ class Runner:
         ext = "fastq" if "qual" in case["ds"][0] else "fasta"
         fn = os.path.join(work, "in." + ext)
         open(fn, "w").write(fmt_input(case["ds"]))
+        io = case.get("io")
+        if io == "gz-in":
+            import gzip
+            with gzip.open(fn + ".gz", "wb") as f:
+                f.write(fmt_input(case["ds"]).encode())
+            os.remove(fn)
+            fn = fn + ".gz"
+        elif io in ("two-files", "no-order"):
+            h = len(case["ds"]) // 2
+            fn2 = os.path.join(work, "in2." + ext)
+            open(fn, "w").write(fmt_input(case["ds"][:h]))
+            open(fn2, "w").write(fmt_input(case["ds"][h:]))
+            fn = [fn, fn2]
         pfn = None
         if case.get("mates") is not None:
             pfn = os.path.join(work, "rev." + ext)
@@ -822,6 +1043,13 @@ class Runner:
         fn, pfn, ext = self.inputs(work, case)
         o = case["opts"]
         common = ["--max-cpu", str(case.get("cpu", 2)), "--batch-size", str(case.get("batch", 5))]
+        io = case.get("io")
+        if io == "one-cpu":
+            common = ["--force-one-cpu", "--batch-size", str(case.get("batch", 5))]
+        files = fn if isinstance(fn, list) else [fn]
+        stdin = None
+        if io == "stdin":
+            files, stdin = [], open(fn, "rb").read()
         res = dict(rc=None)
         try:
             if case["tool"] in ("grep", "annot"):
@@ -833,8 +1061,18 @@ class Runner:
                     argv += ["--save-discarded", disc]
                 if pfn:
                     argv += ["--paired-with", pfn, "--paired-mode", o.get("mode", "forward"), "-o", os.path.join(work, "out." + ext)]
-                argv.append(fn)
-                p = subprocess.run(argv, capture_output=True, timeout=60)
+                outf = None
+                if io == "no-order":
+                    argv.append("--no-order")
+                if io in ("out-file", "compress-file") and not pfn:
+                    outf = os.path.join(work, "res." + ext + (".gz" if io == "compress-file" else ""))
+                    argv += ["-o", outf]
+                if io in ("compress", "compress-file"):
+                    argv.append("-Z")
+                if o.get("bad_argv"):
+                    argv += o["bad_argv"]
+                argv += files
+                p = subprocess.run(argv, capture_output=True, timeout=60, input=stdin)
                 res["rc"] = p.returncode
                 res["argv"] = argv[1:]
                 if p.returncode != 0:
@@ -842,7 +1080,13 @@ class Runner:
                     return res
 
                 def rd(path):
-                    return parse_output(open(path).read()) if os.path.exists(path) else []
+                    if not os.path.exists(path):
+                        return []
+                    raw = open(path, "rb").read()
+                    if raw[:2] == b"\x1f\x8b":          # -Z compresses every file the command writes
+                        import gzip
+                        raw = gzip.decompress(raw)
+                    return parse_output(raw.decode("utf8", "replace"))
                 if pfn:
                     res["out"] = rd(os.path.join(work, "out_R1." + ext))
                     res["out2"] = rd(os.path.join(work, "out_R2." + ext))
@@ -850,14 +1094,24 @@ class Runner:
                         res["disc"] = rd(os.path.join(work, "disc_R1." + ext))
                         res["disc2"] = rd(os.path.join(work, "disc_R2." + ext))
                 else:
-                    res["out"] = parse_output(p.stdout.decode("utf8", "replace"))
+                    raw = p.stdout
+                    if outf:
+                        raw = open(outf, "rb").read() if os.path.exists(outf) else b""
+                    if io in ("compress", "compress-file"):
+                        import gzip
+                        try:
+                            raw = gzip.decompress(raw) if raw else raw
+                        except OSError:
+                            res["rc"], res["err"] = "not-gzip", "the output requested with -Z is not gzip data"
+                            return res
+                    res["out"] = parse_output(raw.decode("utf8", "replace"))
                     if disc:
                         res["disc"] = rd(disc)
             elif case["tool"] == "mux":
                 ngs = os.path.join(work, "ngs.txt")
                 open(ngs, "w").write(case["ngs"])
                 unid = os.path.join(work, "unid.fasta")
-                argv = [os.path.join(self.bin, "obimultiplex")] + common + ["-t", ngs, "-u", unid] + (["--keep-errors"] if o.get("keep_errors") else []) + [fn]
+                argv = [os.path.join(self.bin, "obimultiplex")] + common + ["-t", ngs] + ([] if o.get("no_unid") else ["-u", unid]) + (["--keep-errors"] if o.get("keep_errors") else []) + [fn]
                 p = subprocess.run(argv, capture_output=True, timeout=60)
                 res["rc"] = p.returncode
                 res["argv"] = argv[1:]
@@ -870,6 +1124,14 @@ class Runner:
                 outd = os.path.join(work, "o")
                 os.makedirs(outd, exist_ok=True)
                 argv = [os.path.join(self.bin, "obidistribute")] + common + ["-p", "part_%s." + ext]
+                if o.get("out_format"):
+                    argv.append("--%s-output" % o["out_format"])
+                if o.get("header"):
+                    argv.append("-O" if o["header"] == "obi" else "--output-json-header")
+                if o.get("compress"):
+                    argv.append("-Z")
+                if o.get("append"):
+                    argv.append("-A")
                 if o.get("classifier"):
                     argv += ["-c", o["classifier"]]
                     if o.get("directory"):
@@ -880,18 +1142,29 @@ class Runner:
                     argv += ["-n", str(o["batches"])]
                 else:
                     argv += ["-H", str(o["hash"])]
-                argv.append(fn)
-                p = subprocess.run(argv, capture_output=True, timeout=60, cwd=outd)
-                res["rc"] = p.returncode
-                res["argv"] = argv[1:]
-                if p.returncode != 0:
-                    res["err"] = p.stderr.decode("utf8", "replace")[-600:]
-                    return res
+                if o.get("precreate"):
+                    open(os.path.join(outd, o["precreate"]), "w").write("not a directory\n")
+                argv += files
+                for _ in range(o.get("runs", 1)):        # several runs into the same directory (with / without --append)
+                    p = subprocess.run(argv, capture_output=True, timeout=60, cwd=outd, input=stdin)
+                    res["rc"] = p.returncode
+                    res["argv"] = argv[1:]
+                    if p.returncode != 0:
+                        res["err"] = p.stderr.decode("utf8", "replace")[-600:]
+                        return res
                 files = {}
                 for root, _, fs in os.walk(outd):
                     for f in fs:
                         rel = os.path.relpath(os.path.join(root, f), outd)
-                        files[rel] = parse_output(open(os.path.join(root, f)).read())
+                        raw = open(os.path.join(root, f), "rb").read()
+                        if o.get("compress"):
+                            import gzip
+                            try:
+                                raw = b"".join(gzip.decompress(m) for m in split_gzip(raw))
+                            except OSError:
+                                res["rc"], res["err"] = "not-gzip", "%s is not gzip data" % rel
+                                return res
+                        files[rel] = parse_output(raw.decode("utf8", "replace"), obi=(o.get("header") == "obi"))
                 res["files"] = files
         except subprocess.TimeoutExpired:
             res["rc"] = "timeout"
@@ -964,10 +1237,10 @@ def gen_single_option(rng, ds, fam):
     if fam == "preds":
         return dict(preds=[gen_pexpr(rng, ds) for _ in range(rng.choice([1, 1, 2, 3]))])
     if fam == "hasattr":
-        return dict(hasattr=[rng.choice(SKEYS + IKEYS + ["count", "definition", "taxid", "nokey"]) for _ in range(rng.choice([1, 1, 2, 3, 4]))])
+        return dict(hasattr=[rng.choice(SKEYS + IKEYS + XKEYS + ["count", "definition", "taxid", "nokey", "seq_length"]) for _ in range(rng.choice([1, 1, 2, 3, 4]))])
     if fam == "attrpats":
-        ks = rng.sample(SKEYS + IKEYS + ["count"], rng.choice([1, 1, 2, 3, 4]))
-        o = dict(attrpats={k: rng.choice(VAL_PATS) for k in ks})
+        ks = rng.sample(SKEYS + IKEYS + XKEYS + ["count"], rng.choice([1, 1, 2, 3, 4]))
+        o = dict(attrpats={k: rng.choice(VAL_PATS + (["^t", "e$", "[.]5$", "^1"] if k in XKEYS else [])) for k in ks})
         if rng.random() < 0.4:      # the same key given twice: the map keeps the last pattern
             o["attrpats_over"] = [(k, rng.choice(VAL_PATS)) for k in rng.sample(ks, 1)]
         return o
@@ -988,7 +1261,7 @@ def gen_single_option(rng, ds, fam):
     if fam == "ranks":
         return dict(ranks=[rng.choice(TAX_RANKS) for _ in range(rng.choice([1, 1, 2]))])
     if fam == "restrict":
-        return dict(restrict=[rng.choice(TAX_NODES)[0] for _ in range(rng.choice([1, 1, 2, 3]))])
+        return dict(restrict=[rng.choice(TAX_NODES)[0] if rng.random() < 0.7 else rng.choice(["parent", "n", "k"]) for _ in range(rng.choice([1, 1, 2, 3]))])
     if fam == "ignore":
         return dict(ignore=[rng.choice(TAX_NODES)[0] for _ in range(rng.choice([1, 1, 2]))])
     if fam == "invert":
@@ -1084,7 +1357,42 @@ def gen_grep_cases(ctx, datasets, nrandom, npaired, grid):
         ds = datasets["plain"][-1]
         o = dict(minlen=8, attrpats={"k": "b"}, save_discarded=True)
         cases.append(mk(o, ds, cpu=cpu, batch=batch))
+    # ---- round 3
+    # -I / -D are case sensitive (as in OBITools 2; the help text of the options says otherwise: observation), -s is not
+    wc = [dict(id="Seq1", attrs={"definition": "Foo bar"}, seq="acgtac"), dict(id="seq2", attrs={"definition": "foo BAR"}, seq="ACGTAC".lower()), dict(id="SEQ3", attrs={}, seq="ttgacc")]
+    for o in (dict(idpats=["^s"]), dict(idpats=["^S"]), dict(idpats=["seq"]), dict(defpats=["foo"]), dict(defpats=["Foo"]), dict(defpats=["bar$"]), dict(seqpats=["ACGT"]), dict(seqpats=["acgt"])):
+        cases.append(mk(o, wc, tag="pattern-case"))
+    # the way the records reach the command and leave it: stdin, several files (ordered or not), compressed input / output, -o
+    iods = datasets["plain"][-1]
+    for io in IO_MODES:
+        cases.append(mk(dict(minlen=8, attrpats={"k": "b"}), iods, io=io, batch=3, tag="io:" + io))
+        cases.append(mk(dict(maxlen=20, save_discarded=True, invert=True), iods, io=io, batch=4, tag="io:" + io))
+        ds = rng.choice(datasets["plain"] + datasets["fastq"])
+        o = {}
+        for fam in rng.sample(GREP_FAMS, 2):
+            o.update(gen_single_option(rng, ds, fam))
+        cases.append(mk(o, ds, io=io, batch=rng.choice([1, 2, 5, 1000]), cpu=rng.choice([1, 2, 4]), tag="io:" + io))
+    # DivideOn: both sides longer than a batch, different numbers of full batches on the two sides when the input ends
+    big = datasets["plain"][-1]
+    for batch in (2, 3, 4, 5, 7):
+        for thr in sorted({len(r["seq"]) for r in big})[1:6:2]:
+            cases.append(mk(dict(minlen=thr, save_discarded=True), big, cpu=2, batch=batch, tag="divide-unequal-sides"))
+    bf, br = datasets["paired"][-1]
+    for batch in (2, 3, 5):
+        for m in MODES:
+            cases.append(mk(dict(minlen=9, save_discarded=True, mode=m), bf, mates=br, cpu=2, batch=batch, tag="divide-unequal-sides"))
+    # a criterion that cannot be understood stops the command (a criterion silently ignored would keep the wrong records)
+    for bad in (["-s", "a[c"], ["-D", "(("], ["-I", "*a"], ["-a", "k=[z"], ["-p", "sequence.Len( >"], ["--id-list", "/nonexistent/ids.txt"], ["-r", "30"],
+                ["-t", TAXDIR[0] or "taxdump", "--require-rank", "nosuchrank"], ["-l", "abc"], ["-a", "k"], ["-t", "/nonexistent", "-r", "30"]):
+        cases.append(mk(dict(minlen=2, bad_argv=bad, refuse=True), w, tag="refuse"))
+    cases.append(mk(dict(minlen=2, bad_argv=["--paired-mode", "both"], refuse=True, mode="forward"), wf, mates=wr, tag="refuse"))
+    cases.append(mk(dict(minlen=2, bad_argv=["--save-discarded", "/nonexistent/dir/d.fasta"], refuse=True), w, tag="refuse"))
+    # a predicate that cannot be evaluated on the records (it reads an attribute none of them has): refused, or nothing kept
+    cases.append(mk(dict(bad_argv=["-p", "annotations.zz > 3"], refuse="or-empty"), w, tag="refuse"))
     return cases
+
+
+IO_MODES = ["stdin", "two-files", "no-order", "gz-in", "out-file", "compress", "compress-file", "one-cpu"]
 
 
 ANNOT_FAMS = ["clear", "setid", "delete", "keep", "rename", "length", "settag", "cut", "taxrank", "taxpath", "taxrankname", "sciname", "lca", "aho", "pattern",
@@ -1112,7 +1420,10 @@ def gen_annot_option(rng, ds, fam):
         return dict(length=True)
     if fam == "settag":
         ks = rng.sample(["a", "b", "c", "d", "k"], rng.choice([1, 2, 3, 4]))
-        return dict(settag={k: gen_vexpr(rng) for k in ks})
+        o = dict(settag={k: gen_vexpr(rng) for k in ks})
+        if rng.random() < 0.25:     # the same key given twice: the last expression wins (the overridden one may even fail: it is never evaluated)
+            o["settag_over"] = [(ks[0], rng.choice([("int", 7), ("attr", "nokey"), ("str", "old")]))]
+        return o
     if fam == "taxrank":
         return dict(taxrank=[rng.choice(TAX_RANKS[:4] + ["order"]) for _ in range(rng.choice([1, 1, 2, 3]))])
     if fam == "taxpath":
@@ -1164,7 +1475,7 @@ def gen_annot_option(rng, ds, fam):
         return dict(settag={"sequence": ("str", rng.choice(["acgt", "ACGTTT", "a"]))})
     if fam == "cut":
         L = len(rng.choice(ds)["seq"])
-        frm = rng.choice([1, 2, 3, L, L + 1, max(1, L - 1)])
+        frm = rng.choice([1, 2, 3, L, L + 1, max(1, L - 1), -1, -2, -3, -L, -L - 1, -L + 1, -L - 7])
         to = rng.choice([L - 1, L, L + 1, 100, 5, -1, -2, -3, frm, frm + 1])
         if to == 0:
             to = 1
@@ -1192,6 +1503,10 @@ def annot_conflict(o):
     st = o.get("settag", {})
     if ("id" in st or "sequence" in st) and len(st) > 1:
         return True             # later -S expressions read sequence.Id() / Len()
+    if any(e[0] == "attr" and e[1] in st for e in st.values()):
+        return True             # an -S expression reading an attribute another -S writes (Go map order)
+    if any(e[0] in ("comp", "gc", "gcskew", "numlen", "boolcnt") for k, e in st.items() if k in ("id", "sequence")):
+        return True             # a map / float as identifier: rendering not predicted
     if o.get("lca") and (o.get("clear") or o.get("keep") or {"taxid", "merged_taxid"} & (set(o.get("delete", [])) | set(olds) | set(news))):
         return True             # --add-lca-in on a record without taxid: observation (panic in obitax), outside the statement
     seqset = "sequence" in news or "sequence" in st
@@ -1228,6 +1543,32 @@ def gen_annot_cases(ctx, datasets, nrandom, grid):
     cases.append(mk(dict(cut=[3, 100]), w, cpu=1, batch=10, tag="fixed:cut-captured-bounds"))
     cases.append(mk(dict(cut=[3, 100]), list(reversed(w)), cpu=1, batch=10, tag="fixed:cut-captured-bounds"))
     cases.append(mk(dict(cut=[2, -2]), w))
+    for ft in ([0, 5], [3, 0], [0, 0], [0, -2]):        # a bound equal to 0: the option is accepted and nothing is cut (observation cut-zero-bound-ignored)
+        cases.append(mk(dict(cut=ft, length=True), w, tag="cut-zero-bound"))
+    # a negative `from` counts from the end like a negative `to` (witness of the off-by-one of CutSequenceWorker, fixed)
+    for ft in ([-3, -1], [-1, -1], [-6, -2], [-100, 3], [-20, 100], [-6, 6], [-7, 1], [-5, 1]):
+        cases.append(mk(dict(cut=ft), w, tag="fixed:cut-negative-from"))
+    # an edit that cannot be computed on a record (expression reading a missing attribute): that record is discarded with a
+    # warning, every other record is edited; with selection options the unselected records pass through
+    cases.append(mk(dict(settag={"a": ("attr", "k")}), w, tag="failing-expression"))
+    cases.append(mk(dict(settag={"a": ("attr", "k"), "b": ("int", 1)}, length=True), w, tag="failing-expression"))
+    cases.append(mk(dict(setid=("attr", "k")), w, tag="failing-expression"))
+    cases.append(mk(dict(settag={"a": ("int", 2)}, settag_over=[("a", ("attr", "nokey")), ("a", ("int", 1))]), w, tag="repeat-map-key"))
+    cases.append(mk(dict(rename={"kk": "k"}, rename_over=[("kk", "n")]), w, tag="repeat-map-key"))
+    # WriteSequence looks for the first non-empty batch to choose FASTQ / FASTA: here the first two batches are emptied by
+    # --cut and several batches follow the first non-empty one
+    wq2 = [dict(id="q%d" % i, attrs={}, seq="acg", qual="III") for i in range(10)] + [dict(id="long%d" % i, attrs={"n": i}, seq="acgtacgtacgtacgtacgt", qual="I" * 20) for i in range(13)]
+    for cpu in (1, 2, 4):
+        cases.append(mk(dict(cut=[5, 10]), wq2, cpu=cpu, batch=5, tag="empty-first-batches"))
+    cases.append(mk(dict(settag={"a": ("attr", "n")}, cut=[2, 8]), w, sel=dict(minlen=8), tag="failing-expression"))
+    cases.append(mk(dict(clear=True, settag={"a": ("attr", "k")}), w, tag="failing-expression"))
+    cases.append(mk(dict(rename={"k": "n"}, settag={"a": ("attr", "k")}, delete=["n"]), w, tag="failing-expression"))
+    # the functions of the embedded expression language
+    cases.append(mk(dict(settag={"a": ("iflen", 12, "long", "short"), "b": ("printf",), "c": ("halflen",), "d": ("subspc", "a b c")}), w, tag="language-functions"))
+    cases.append(mk(dict(settag={"a": ("gsubid", "c", "C-"), "b": ("replseq", "ac", "x"), "c": ("gc",), "d": ("comp",)}), w, tag="language-functions"))
+    cases.append(mk(dict(settag={"a": ("numlen",), "b": ("boolcnt",), "c": ("gcskew",)}), w + [dict(id="c5", attrs={"count": 4}, seq="ggcat")], tag="language-functions"))
+    # gcskew of a sequence without g and c is NaN: the JSON title-line writer cannot encode it and writes NO attribute at all
+    cases.append(mk(dict(settag={"skew": ("gcskew",)}), [dict(id="at1", attrs={"k": "abc", "n": 3}, seq="ttaatt"), dict(id="gc1", attrs={"k": "x"}, seq="ggcat")], tag="known:gcskew-nan"))
     wq = [dict(id="q%d" % i, attrs={}, seq="acg", qual="III") for i in range(12)] + [dict(id="long", attrs={}, seq="acgtacgtacgtacgtacgt", qual="I" * 20)]
     for _ in range(4):
         cases.append(mk(dict(cut=[5, 10]), wq, cpu=2, batch=5, tag="fixed:fastq-written-as-fasta"))
@@ -1267,7 +1608,11 @@ def gen_annot_cases(ctx, datasets, nrandom, grid):
     for fam in ANNOT_FAMS:
         for _ in range(3):
             ds = annot_ds(rng, datasets, [fam])
-            cases.append(mk(gen_annot_option(rng, ds, fam), ds))
+            for _ in range(20):
+                o = gen_annot_option(rng, ds, fam)
+                if not annot_conflict(o):       # e.g. -S k=42 -S c=annotations.k: the result depends on Go's map order
+                    cases.append(mk(o, ds))
+                    break
     for f1, f2 in itertools.combinations(ANNOT_FAMS, 2):
         for _ in range(20):
             ds = annot_ds(rng, datasets, [f1, f2], fastq_ok=False)
@@ -1300,12 +1645,32 @@ def gen_annot_cases(ctx, datasets, nrandom, grid):
         ds = datasets["plain"][-1]
         cases.append(mk(dict(settag={"a": ("lenplus", 1), "b": ("str", "foo")}, cut=[2, 9], length=True), ds, cpu=cpu, batch=batch))
         cases.append(mk(dict(length=True), ds, cpu=cpu, batch=batch, sel=dict(minlen=9)))
+    # ---- round 3
+    # every worker of the chain under several goroutines and many small batches (state shared between the closures of a
+    # worker shows up only there): a long input, batch sizes 1-3, 8 workers
+    long_ds = [dict(r, id="%s_%d" % (r["id"], j), attrs=dict(r["attrs"])) for j in range(6 if ctx.quick else 40) for r in datasets["plain"][-1]]
+    for o in (dict(keep=["k", "n"]), dict(keep=["count"], delete=["k"], length=True), dict(delete=["k", "tag"], rename={"nn": "n"}, settag={"a": ("attr", "sample")}),
+              dict(clear=True, settag={"a": ("printf",)}, cut=[-5, -1])):
+        for batch in (1, 2, 3):
+            cases.append(mk(o, long_ds, cpu=8, batch=batch, tag="workers-stress"))
+    for cpu, batch in ((4, 1), (16, 1), (8, 1), (16, 2), (4, 2), (8, 1)):       # the --keep worker again (collect-then-delete loop over the attributes)
+        cases.append(mk(dict(keep=rng.sample(["k", "n", "count", "tag", "sample"], 2)), long_ds, cpu=cpu, batch=batch, tag="workers-stress"))
+    for io in IO_MODES:
+        cases.append(mk(dict(length=True, cut=[2, -2], settag={"a": ("attr", "k")}), datasets["plain"][-1], io=io, batch=3, tag="io:" + io))
+        cases.append(mk(dict(keep=["k", "count"], rename={"kk": "k"}), rng.choice(datasets["plain"] + datasets["fastq"]), io=io, batch=rng.choice([1, 2, 5]), sel=dict(minlen=6), tag="io:" + io))
+    for bad in (["--cut", "3"], ["--cut=a:5"], ["--cut=3:b"], ["--pattern", "ac[gt"], ["-S", "a=sequence.Len( +"], ["--set-identifier", "(("], ["-S", "a"], ["-R", "a"],
+                ["--with-taxon-at-rank", "genus"], ["-s", "a[c"], ["--aho-corasick", "/tmp"]):
+        cases.append(mk(dict(length=True, bad_argv=bad, refuse=True), w, tag="refuse"))
+    # conversions that cannot succeed (language.go int / numeric / bool): the command stops, or at least writes no record with a made-up value
+    for bad in (["-S", 'a=int("abc")'], ["-S", 'a=numeric("abc")'], ["-S", 'a=bool("abc")']):
+        cases.append(mk(dict(bad_argv=bad, refuse="or-empty"), w, tag="refuse"))
     return cases
 
 
 def gen_dist_cases(ctx, datasets, nrandom, grid):
     rng = ctx.rng
     cases = []
+    big = datasets["plain"][-1]
 
     def mk(o, ds=None, **kw):
         return dict(tool="dist", opts=o, ds=ds if ds is not None else rng.choice(datasets["plain"]), **kw)
@@ -1338,6 +1703,28 @@ def gen_dist_cases(ctx, datasets, nrandom, grid):
     for cpu, batch in grid:
         cases.append(mk(dict(classifier="k"), datasets["plain"][-1], cpu=cpu, batch=batch))
         cases.append(mk(dict(batches=3), datasets["plain"][-1], cpu=cpu, batch=batch))
+    # ---- round 3: boolean / float classifier values, output format options, --append, -Z, stdin / several files
+    for k in XKEYS:
+        cases.append(mk(dict(classifier=k)))
+        cases.append(mk(dict(classifier="k", directory=k)))
+    fq = datasets["fastq"][0]
+    for base in (dict(classifier="k"), dict(batches=3), dict(hash=4), dict(classifier="sample", directory="tag")):
+        cases.append(mk(dict(base, out_format="fasta"), fq, tag="format"))
+        cases.append(mk(dict(base, out_format="fastq"), fq, tag="format"))
+        cases.append(mk(dict(base, out_format="fasta"), tag="format"))
+        cases.append(mk(dict(base, compress=True), rng.choice([fq, big]), batch=rng.choice([1, 3, 5]), tag="compress"))
+        cases.append(mk(dict(base, runs=2, append=True), rng.choice([fq, big]), batch=rng.choice([2, 5]), tag="append"))
+        cases.append(mk(dict(base, runs=3, append=True, compress=True), tag="append"))
+        cases.append(mk(dict(base, runs=2), tag="no-append"))
+    for base in (dict(classifier="k"), dict(classifier="n", directory="sample"), dict(batches=2)):
+        cases.append(mk(dict(base, header="obi"), rng.choice(datasets["plain"]), tag="header"))
+        cases.append(mk(dict(base, header="json"), rng.choice(datasets["plain"]), tag="header"))
+    # the value chosen as directory is the name of an existing FILE: the command must stop, not lose the records
+    wd = [dict(id="d1", attrs={"k": "a", "tag": "taken"}, seq="acgt"), dict(id="d2", attrs={"k": "b", "tag": "free"}, seq="acgtt")]
+    cases.append(mk(dict(classifier="k", directory="tag", precreate="taken", refuse=True), wd, tag="refuse"))
+    for io in ("stdin", "two-files", "gz-in", "one-cpu"):
+        cases.append(mk(dict(classifier="k"), big, io=io, batch=3, tag="io:" + io))
+        cases.append(mk(dict(batches=4), big, io=io, batch=2, tag="io:" + io))
     return cases
 
 
@@ -1350,6 +1737,8 @@ def rec_key(r):
 def check_grep(case, res):
     """-> (ok, detail, known_key)"""
     o, ds, mates = case["opts"], case["ds"], case.get("mates")
+    if o.get("refuse"):
+        return refused(case, res)
     if res["rc"] != 0:
         return False, "exit %s: %s" % (res["rc"], res.get("err", "")[-300:]), None
     exp = [spec_keep(o, r, mates[i] if mates else None) for i, r in enumerate(ds)]
@@ -1385,8 +1774,23 @@ def check_grep(case, res):
     return False, "; ".join(problems), key
 
 
+def refused(case, res):
+    """a criterion / edit that cannot be understood (bad regular expression, bad expression, unknown paired mode, missing
+    identifier file, malformed --cut ...) must stop the command with a non-zero status: going on would silently ignore a
+    requested criterion"""
+    if res["rc"] == 0 and case["opts"]["refuse"] == "or-empty" and not res.get("out"):
+        return True, None, None
+    if res["rc"] in (0, None):
+        return False, "the command accepted %s (exit 0, %d records written) instead of refusing it" % (case["opts"].get("bad_argv") or case["opts"], len(res.get("out", []))), None
+    if res["rc"] == "timeout":
+        return False, "the command hangs on %s" % case["opts"].get("bad_argv"), None
+    return True, None, None
+
+
 def check_annot(case, res):
     o, ds = case["opts"], case["ds"]
+    if o.get("refuse"):
+        return refused(case, res)
     if res["rc"] != 0:
         return False, "exit %s: %s" % (res["rc"], res.get("err", "")[-300:]), None
     exp = []
@@ -1399,6 +1803,12 @@ def check_annot(case, res):
     got = sorted(rec_key(r) for r in res["out"])
     if got == sorted(rec_key(r) for r in exp):
         return True, None, None
+    nan_ids = {r["id"] for r in exp if any(isinstance(v, float) and v != v for v in r["attrs"].values())}
+    if nan_ids:
+        byid = {r["id"]: r for r in res["out"]}
+        rest_ok = sorted(rec_key(r) for r in res["out"] if r["id"] not in nan_ids) == sorted(rec_key(r) for r in exp if r["id"] not in nan_ids)
+        if rest_ok and all(i in byid and not byid[i]["attrs"] for i in nan_ids):
+            return False, "records whose new attribute is NaN are written without any attribute: %s" % sorted(nan_ids), "gcskew-nan"
     if exp and "qual" in exp[0] and all("qual" not in r for r in res["out"]) and \
             got == sorted(rec_key({k: v for k, v in r.items() if k != "qual"}) for r in exp):
         return False, "FASTQ input written as FASTA: every record and edit is right but the qualities are lost", "fastq-written-as-fasta"
@@ -1407,19 +1817,29 @@ def check_annot(case, res):
 
 def check_dist(case, res):
     o, ds = case["opts"], case["ds"]
+    if o.get("refuse"):
+        return refused(case, res)
     if res["rc"] != 0:
         return False, "exit %s: %s" % (res["rc"], res.get("err", "")[-300:]), None
     ext = "fastq" if "qual" in ds[0] else "fasta"
+    noqual = o.get("out_format") == "fasta"          # --fasta-output: the records without their qualities
+    key = (lambda r: rec_key({k: v for k, v in r.items() if k != "qual"})) if noqual else rec_key
+    if o.get("header") == "obi":        # OBI title lines: every value compared as the text written (fmt.Sprint)
+        key = lambda r: rec_key(dict(r, attrs={k: sprint(v) for k, v in r["attrs"].items()}))
     exp = {}
-    for i, r in enumerate(ds):
-        v1, v2 = route_ref(o, r, i)
-        name = "part_%s.%s" % (v1, ext)
-        if v2:
-            name = os.path.join(v2, name)
-        exp.setdefault(name, []).append(rec_key(r))
+    times = o.get("runs", 1) if o.get("append") else 1       # --append: every run adds its records; otherwise the last run replaces the files
+    for _ in range(times):
+        for i, r in enumerate(ds):
+            v1, v2 = route_ref(o, r, i)
+            name = "part_%s.%s%s" % (v1, ext, ".gz" if o.get("compress") else "")
+            if v2:
+                name = os.path.join(v2, name)
+            exp.setdefault(name, []).append(key(r))
     got = {k: [rec_key(r) for r in v] for k, v in res["files"].items()}
+    if o.get("out_format") == "fastq" and "qual" in ds[0] and any("qual" not in r for v in res["files"].values() for r in v):
+        return False, "--fastq-output: records written without qualities", None
     allgot = sorted(x for v in got.values() for x in v)
-    if allgot != sorted(rec_key(r) for r in ds):
+    if allgot != sorted(key(r) for r in ds for _ in range(times)):
         return False, "the outputs are not a partition of the input (%d records out, %d in)" % (len(allgot), len(ds)), None
     if {k: sorted(v) for k, v in got.items()} != {k: sorted(v) for k, v in exp.items()}:
         return False, "records routed to the wrong file: got %s expected %s" % ({k: len(v) for k, v in got.items()}, {k: len(v) for k, v in exp.items()}), None
@@ -1444,6 +1864,18 @@ def check_mux(case, res):
         pass
     got_out = [orig_id(r["id"]) for r in res["out"]]
     got_unid = [orig_id(r["id"]) for r in res["unid"]]
+    if case["opts"].get("no_unid"):
+        # without -u: stdout = the assigned reads only (same reads as with -u); --keep-errors: every read, the unassigned ones marked
+        ref = case.get("ref") or {}
+        want = sorted(x for x in ids if case["opts"].get("keep_errors") or ref.get(x) == "out")
+        if sorted(got_out) != want:
+            return False, "without -u%s: %d records on stdout, expected the %d %s reads (missing %s, unexpected %s)" % (
+                " --keep-errors" if case["opts"].get("keep_errors") else "", len(got_out), len(want), "input" if case["opts"].get("keep_errors") else "assigned",
+                sorted(set(want) - set(got_out))[:5], sorted(set(got_out) - set(want))[:5]), None
+        bad = [r["id"] for r in res["out"] if ("obimultiplex_error" in r["attrs"]) != (ref.get(orig_id(r["id"])) == "unid")]
+        if bad:
+            return False, "reads whose obimultiplex_error mark disagrees with the run with -u: %s" % bad[:5], None
+        return True, None, None
     if sorted(got_out + got_unid) != ids:
         return False, "assigned + unidentified is not the input: %d + %d records for %d reads (missing %s, twice %s)" % (
             len(got_out), len(got_unid), len(ids), sorted(set(ids) - set(got_out + got_unid))[:5],
@@ -1508,6 +1940,17 @@ def gen_mux_cases(ctx, grid, nshuffle, nstress):
         cases.append(dict(tool="mux", opts={}, ds=sub, ngs=ngs, cpu=rng.choice([1, 2, 4]), batch=rng.choice([1, 3, 7, 100])))
     for r in recs[:6]:
         cases.append(dict(tool="mux", opts={}, ds=[r], ngs=ngs))
+    # ---- round 3: without -u (the unassigned reads are dropped / kept marked with --keep-errors): same verdict per read as with -u
+    for cpu, batch in grid[:6]:
+        cases.append(dict(tool="mux", opts=dict(no_unid=True), ds=recs, ngs=ngs, cpu=cpu, batch=batch, tag="no-unidentified-file"))
+        cases.append(dict(tool="mux", opts=dict(no_unid=True, keep_errors=True), ds=recs, ngs=ngs, cpu=cpu, batch=batch, tag="keep-errors"))
+    cases.append(dict(tool="mux", opts=dict(keep_errors=True), ds=recs, ngs=ngs, cpu=2, batch=7, tag="keep-errors"))
+    # reads that went through obimultiplex before (the unidentified file of an earlier run given again, with another
+    # sample sheet): the verdict of the earlier run they carry must not decide the routing of this run
+    for k in range(3):
+        stale = [dict(r, attrs=dict(r["attrs"], **({"obimultiplex_error": "No barcode identified"} if (i + k) % 2 == 0 else {}))) for i, r in enumerate(recs)]
+        cases.append(dict(tool="mux", opts={}, ds=stale, ngs=ngs, cpu=rng.choice([1, 2, 4]), batch=rng.choice([3, 7, 100]), tag="fixed:stale-obimultiplex-error"))
+    cases.append(dict(tool="mux", opts=dict(no_unid=True), ds=stale, ngs=ngs, cpu=2, batch=7, tag="fixed:stale-obimultiplex-error"))
     tiny = recs[:8]
     for _ in range(nstress):           # witness of the exit race of the unidentified-reads writer (fixed)
         cases.append(dict(tool="mux", opts={}, ds=tiny, ngs=ngs, cpu=2, batch=5, tag="fixed:unidentified-writer-exit-race"))
@@ -1578,13 +2021,25 @@ def cpexpr(e):
         return "(PAnd %s %s)" % (cpexpr(e[1]), cpexpr(e[2]))
     if k == "or":
         return "(POr %s %s)" % (cpexpr(e[1]), cpexpr(e[2]))
+    if k == "nattrge":
+        return "(PNAttrGe %s)" % cz(e[1])
+    if k == "ismap":
+        return "(PIsMap %s)" % cs(e[1])
+    if k == "attrgt":
+        return "(PAttrGt %s %s)" % (cs(e[1]), cz(e[2]))
+    if k == "iflen":
+        return "(PIfLen %s)" % cz(e[1])
+    if k == "notin":
+        return "PTrue"
     return "(PNot %s)" % cpexpr(e[1])
 
 
 def cvexpr(e):
     k = e[0]
     return dict(int=lambda: "(EInt %s)" % cz(e[1]), str=lambda: "(EStr %s)" % cs(e[1]), lenplus=lambda: "(ELenPlus %s)" % cz(e[1]),
-                counttimes=lambda: "(ECountTimes %s)" % cz(e[1]), id=lambda: "EId", idsuffix=lambda: "(EIdSuffix %s)" % cs(e[1]))[k]()
+                counttimes=lambda: "(ECountTimes %s)" % cz(e[1]), id=lambda: "EId", idsuffix=lambda: "(EIdSuffix %s)" % cs(e[1]),
+                attr=lambda: "(EAttr %s)" % cs(e[1]), iflen=lambda: "(EIfLen %s %s %s)" % (cz(e[1]), cs(e[2]), cs(e[3])), printf=lambda: "EPrintf",
+                halflen=lambda: "EHalfLen", subspc=lambda: "(EStr %s)" % cs(e[1].replace(" ", "_")))[k]()
 
 
 def cgopts(o):
@@ -1598,7 +2053,7 @@ def cgopts(o):
         clist("(%s, %s)" % (cs(k), cpat(p)) for k, p in o.get("attrpats", {}).items()),
         "None" if o.get("idlist") is None else "(Some %s)" % clist(cs(x.strip()) for x in o["idlist"]),
         cb(o.get("invert")), "M" + o.get("mode", "forward").capitalize().replace("Andnot", "AndNot"),
-        clist("TRank %s" % cs(x) for x in o.get("ranks", [])), clist("TSub %d" % x for x in o.get("restrict", [])), clist("TSub %d" % x for x in o.get("ignore", [])),
+        clist("TRank %s" % cs(x) for x in o.get("ranks", [])), clist(("TSlot %s" % cs(x)) if isinstance(x, str) else "TSub %d" % x for x in o.get("restrict", [])), clist("TSub %d" % x for x in o.get("ignore", [])),
         clist(cs(p) for p in o.get("approx", [])), cz(o.get("pat_err") or 0), cb(o.get("pat_indel")), cb(o.get("pat_fwd")))
 
 
@@ -1623,6 +2078,17 @@ def case_term(case, res, dsname):
         mates = case.get("mates")
         return "CGrep %s %s %s %s" % (cgopts(o), dsname[id(ds)], ("(Some %s)" % dsname[id(mates)]) if mates else "None",
                                       clist(cb(r["id"] in kept) for r in ds))
+    if case["tool"] == "mux":
+        # the reads as they leave the barcode worker, in input order, projected on the attribute the routing looks at
+        by = {}
+        for rs in (res["out"], res.get("unid", [])):
+            for r in rs:
+                by.setdefault(orig_id(r["id"]), []).append(r)
+        reads = [x for r in ds for x in by.get(r["id"], [])]
+        return "CMux %d %s %s %s %s %s" % (
+            case.get("batch", 5), cb(not o.get("no_unid")), cb(o.get("keep_errors")),
+            clist("mkr %s %s %s" % (cs(x["id"]), clist(["(%s, %s)" % (cs("obimultiplex_error"), cval(x["attrs"]["obimultiplex_error"]))] if "obimultiplex_error" in x["attrs"] else []), cs("")) for x in reads),
+            clist(cs(x["id"]) for x in res.get("unid", [])), clist(cs(x["id"]) for x in res["out"]))
     if case["tool"] == "annot":
         exp = []
         for r in ds:
@@ -1654,7 +2120,14 @@ IMPORTS = "From Coq Require Import ZArith List String Ascii Bool. Import ListNot
 def in_model(c):
     """cases the Coq model can evaluate"""
     o = c["opts"]
+    if o.get("refuse") or o.get("out_format") or o.get("compress") or o.get("runs") or o.get("header") or o.get("precreate"):
+        return False            # refusals / file-format variants of obidistribute: oracle only
+    for g in (o if c["tool"] == "grep" else {}, c.get("sel") or {}):
+        if any(pexpr_float(e) for e in g.get("preds", [])):
+            return False        # gc(): floating point, oracle only
     if c["tool"] == "annot":
+        if any(e[0] in VEXPR_ORACLE_ONLY for e in list(o.get("settag", {}).values()) + ([o["setid"]] if o.get("setid") is not None else [])):
+            return False        # gsub / replace / gc / composition: oracle only
         if o.get("pattern") and o.get("pat_indel"):
             return False        # BestMatch with indels re-aligns the occurrence (C10): oracle only
         if "qualities" in o.get("rename", {}).values() and "qual" in c["ds"][0]:
@@ -1663,7 +2136,8 @@ def in_model(c):
 
 
 def correspond(ctx, label, cases, results, broken):
-    idx = [i for i, (c, r) in enumerate(zip(cases, results)) if r["rc"] == 0 and c["tool"] != "mux" and not (c["tool"] == "dist" and c["opts"].get("hash")) and in_model(c)]
+    idx = [i for i, (c, r) in enumerate(zip(cases, results)) if r["rc"] == 0 and not (c["tool"] == "dist" and c["opts"].get("hash")) and in_model(c)
+           and c.get("tag") != "workers-stress"]          # the long inputs of the goroutine stress: oracle only (the same option sets are evaluated on short inputs)
     cap = 600 if ctx.quick else 3000         # the oracle judges every run; the model is evaluated on the corpus + a sample beyond the cap
     if len(idx) > cap:
         tagged = [i for i in idx if cases[i].get("tag") and not str(cases[i]["tag"]).endswith("exit-race")]       # the corpus witnesses are always evaluated
@@ -1680,6 +2154,8 @@ def correspond(ctx, label, cases, results, broken):
         part = idx[k:k + shard]
         dsname, defs = {}, []
         for i in part:
+            if cases[i]["tool"] == "mux":
+                continue
             for ds in (cases[i]["ds"], cases[i].get("mates")):
                 if ds is not None and id(ds) not in dsname:
                     dsname[id(ds)] = "ds%d" % len(dsname)
@@ -1720,6 +2196,17 @@ def make_datasets(ctx):
         for a, b in zip(f, r):
             b["id"] = a["id"]
         paired.append((f, r))
+    # a paired FASTQ data set (qualities of both mates must follow them into _R1 / _R2) and a longer paired FASTA one
+    f = gen_dataset(rng, n, prefix="p", fastq=True)
+    r = gen_dataset(rng, n, prefix="p", fastq=True)
+    for a, b in zip(f, r):
+        b["id"] = a["id"]
+    paired.insert(0, (f, r))
+    f = gen_dataset(rng, 33, prefix="p")
+    r = gen_dataset(rng, 33, prefix="p")
+    for a, b in zip(f, r):
+        b["id"] = a["id"]
+    paired.append((f, r))
     return dict(plain=plain, fastq=fastq, paired=paired, tax=tax)
 
 
@@ -1772,6 +2259,8 @@ def run(ctx, broken):
     if bindir is None:
         broken.append(dict(kind="command-build", detail=err))
         return
+    from vlib import BUILD
+    TAXDIR[0] = os.path.join(BUILD, "c16_taxdump")
     datasets = make_datasets(ctx)
     if ctx.quick:
         grid = [(c, b) for c in (1, 2, 8) for b in (1, 3, 1000)]
@@ -1801,8 +2290,20 @@ def run(ctx, broken):
         "obiannotate --add-lca-in on a record without taxid: exit %s (obitax TaxonomicDistribution looks taxid 0 up)" % o1["rc"],
         "obiannotate --add-lca-in --scientific-name on {taxid:40,count:3}: attributes written %s" % (sorted(o2["out"][0]["attrs"]) if o2["rc"] == 0 and o2.get("out") else o2["rc"]),
         "a string-typed count ({\"count\":\"6\"}) reads as 1 (BioSequence.Count); modelled and driven (corpus tag string-typed-count)"]
-    ctx.cov["evaluations"] = len(cases)
-    ctx.cov["records_judged"] = sum(len(c["ds"]) for c in cases)
+    # the annotation pipeline in process on long synthetic inputs: no reader in front, so several workers really are inside the
+    # worker closures at the same time (state shared between the goroutines of a worker shows up here, rarely through the command)
+    import time
+    t0 = time.time()
+    pcs = pipeline_cases(ctx)
+    for i, c in enumerate(pcs):
+        ok, detail, info = run_pipeline(ctx, c)
+        if ok is None:
+            broken.append(dict(kind="harness", detail=detail))
+        elif not ok and len(ctx.violations) < MAX_VIOL + 2:
+            ctx.violation("pipeline_%d" % i, dict(property="C16", kind="direct-oracle", tool="pipeline", case=c, what=detail, implementation=info))
+    ctx.cov["phase_s"]["pipeline_in_process"] = round(time.time() - t0, 1)
+    ctx.cov["evaluations"] = len(cases) + len(pcs)
+    ctx.cov["records_judged"] = sum(len(c["ds"]) for c in cases) + sum(c["n"] for c in pcs)
 
     def nontrivial(c, res):
         if res["rc"] != 0:
@@ -1822,6 +2323,41 @@ def run(ctx, broken):
     for c in cases:
         k = "%s/%d-options%s" % (c["tool"], len([k for k in c["opts"] if k not in ("mode",)]), "/paired-" + c["opts"].get("mode", "forward") if c.get("mates") else "")
         dist[k] = dist.get(k, 0) + 1
+    classes = {}
+
+    def bump(k):
+        classes[k] = classes.get(k, 0) + 1
+    for c in cases:
+        o = c["opts"]
+        if c.get("io"):
+            bump("io/" + c["io"])
+        if c.get("tag"):
+            bump("tag/" + str(c["tag"]).split(":")[0] + (":" + str(c["tag"]).split(":")[1] if str(c["tag"]).startswith(("io", "known")) else ""))
+        for e in list(o.get("settag", {}).values()) + ([o["setid"]] if o.get("setid") is not None else []):
+            bump("vexpr/" + e[0])
+        for g in (o, c.get("sel") or {}):
+            for e in g.get("preds", []) if isinstance(g.get("preds"), list) else []:
+                bump("pexpr/" + e[0])
+            if any(isinstance(t, str) for t in g.get("restrict", []) or []):
+                bump("restrict-by-slot")
+        if o.get("cut") is not None:
+            bump("cut/from%s,to%s" % ("<0" if o["cut"][0] < 0 else ">0", "<0" if o["cut"][1] < 0 else ">0"))
+        if o.get("refuse"):
+            bump("refusal")
+        for k in ("out_format", "header", "compress", "append", "runs", "no_unid", "keep_errors"):
+            if o.get(k):
+                bump("%s/%s=%s" % (c["tool"], k, o[k]))
+    seen = set()
+    for c in cases:
+        if id(c["ds"]) in seen:
+            continue
+        seen.add(id(c["ds"]))
+        for r in c["ds"]:
+            for v in r["attrs"].values():
+                bump("attr-value/" + type(v).__name__)
+            if "_sub[" in r["id"] or any(k in r["attrs"] for k in ("seq_length", "pattern", "aho_corasick", "family_taxid", "obimultiplex_error", "taxonomic_rank")):
+                bump("record-with-tool-annotations")
+    dist.update({"class:" + k: v for k, v in sorted(classes.items())})
     ctx.cov["distribution"] = dist
     ctx.samples = [dict(tool=c["tool"], opts=c["opts"], argv=res.get("argv"), n_in=len(c["ds"]), n_out=len(res.get("out", []))) for c, res in list(zip(cases, results))[:3] + list(zip(cases, results))[-3:]]
     if mism is None:
@@ -1836,9 +2372,67 @@ def run(ctx, broken):
         ctx.cov["note"] = "model and implementation diverge on %d cases (%d of them reported by the direct oracle)" % (len(mism), len(mism) - len(unexplained))
 
 
+# ------------------------------------------------------------------ the annotation pipeline in process, long input
+
+def stress_record(i):
+    """the i-th synthetic record of the in-process pipeline runs (= c16StressRecord in harness/cmd/vh/c16stress.go)"""
+    attrs = {"k": "ab"[i % 2], "count": 1 + i % 5, "sample": "s%d" % (i % 13), "x": i % 3}
+    if i % 5 != 2:
+        attrs["n"] = i % 7
+    if i % 4 != 1:
+        attrs["tag"] = "t%d" % (i % 11)
+    if i % 3 == 0:
+        attrs["extra"] = "e"
+    return dict(id="r%06d" % i, attrs=attrs, seq="acgtacgtacgt"[:4 + i % 7])
+
+
+def pipeline_cases(ctx):
+    k = 1 if ctx.quick else 4
+    return [dict(tool="pipeline", opts=dict(keep=["k", "count"]), cpu=16, batch=200, n=20000 * k),
+            dict(tool="pipeline", opts=dict(keep=["k", "count"]), cpu=8, batch=100, n=10000 * k),
+            dict(tool="pipeline", opts=dict(keep=["count", "sample"]), cpu=4, batch=50, n=10000 * k),
+            dict(tool="pipeline", opts=dict(keep=["sample", "seq_length"], delete=["tag"], rename={"nn": "n"}, length=True), cpu=16, batch=50, n=6000 * k),
+            dict(tool="pipeline", opts=dict(clear=True, settag={"a": ("printf",), "b": ("halflen",)}, cut=[-5, -1]), cpu=8, batch=100, n=6000 * k)]
+
+
+def run_pipeline(ctx, c):
+    """-> (ok, detail, observation summary)"""
+    o = c["opts"]
+    argv = ["--max-cpu", str(c["cpu"]), "--batch-size", str(c["batch"])] + annot_argv(o, "")
+    obs = ctx.vh_robust("c16", [dict(kind="pipeline", argv=argv, n=c["n"], batch=c["batch"])], timeout=600)[0]
+    if obs.get("kind") != "pipeline":
+        return None, "the harness did not run the pipeline: %s" % str(obs)[:400], None
+    got = {}
+    for rid, attrs, seq in obs["records"]:
+        got.setdefault(rid, []).append(rec_key(dict(id=rid, attrs={k: canon_val(v) for k, v in attrs.items()}, seq=seq)))
+    bad, nexp = [], 0
+    for i in range(c["n"]):
+        r = stress_record(i)
+        exp = spec_annot(o, r)
+        nexp += len(exp)
+        ids = {x["id"] for x in exp} | {r["id"]}
+        g = sorted(x for j in ids for x in got.pop(j, []))
+        if g != sorted(rec_key(x) for x in exp):
+            bad.append(dict(input=r, expected=exp, written=g))
+    for rid, g in got.items():
+        bad.append(dict(input=None, expected=[], written=g))
+    if bad:
+        return False, "%d of %d records of an in-process run of the annotation pipeline (%d workers, batches of %d) differ from the edits requested, e.g. %s" % (
+            len(bad), c["n"], obs.get("workers", 0), c["batch"], json.dumps(bad[0], default=str)[:500]), dict(n_bad=len(bad), first=bad[:3], argv=argv)
+    return True, None, dict(n_bad=0, argv=argv)
+
+
 def replay(ctx, rp):
-    bindir, err = ctx.build_cmds(CMDS)
     c = rp["case"]
+    if c["tool"] == "pipeline":
+        if not getattr(ctx, "vh_bin", None):
+            ctx.build_harness()
+        c["opts"] = {k: ({a: tuple(b) for a, b in v.items()} if k == "settag" else v) for k, v in c["opts"].items()}
+        ok, detail, info = run_pipeline(ctx, c)
+        print("replay: in-process annotation pipeline", c["opts"], "n =", c["n"], "cpu =", c["cpu"], "batch =", c["batch"])
+        print("  ->", "property holds (the failure depends on the schedule: repeat)" if ok else "FAILS: %s" % detail)
+        return
+    bindir, err = ctx.build_cmds(CMDS)
     if c["tool"] == "grep" and c["opts"].get("attrpats") is None:
         pass
     r = Runner(ctx, bindir)
